@@ -1,5 +1,259 @@
 package main
 
+// Counterexamples: model extraction for the inputs of a unit, and generation of an
+// in-package Go test that rebuilds those inputs, runs the REAL function (or the lemma
+// harness, natively) and evaluates the failed contract clause natively.
+
+import (
+	"encoding/json"
+	"fmt"
+	"go/types"
+	"math"
+	"os"
+	"os/exec"
+	"path/filepath"
+	"sort"
+	"strings"
+
+	"golang.org/x/tools/go/ssa"
+)
+
+const replayElems = 48 // slice elements read back from a model
+
+type qnode struct {
+	t     types.Type
+	comps []*Term
+	vals  []uint64
+	elems []*qnode // slices / strings: first replayElems elements
+	ptee  *qnode   // pointers
+	flds  []*qnode // structs
+	unsup string
+}
+
+// entryState is a state over the initial heaps only.
+func (x *Exec) entryState() *State {
+	return &State{env: map[ssa.Value]*Val{}, heaps: map[string]*Mem{}, pc: x.tb.True, base: x.tb.True, top: x.tb.BV(64, calleeBase)}
+}
+
+func (x *Exec) buildQ(st *State, v *Val, depth int) *qnode {
+	q := &qnode{t: v.T, comps: v.C}
+	if depth > 3 {
+		return q
+	}
+	tb := x.tb
+	switch u := v.T.Underlying().(type) {
+	case *types.Slice:
+		for i := 0; i < replayElems; i++ {
+			ev := x.loadRaw(st, &Addr{prefix: elemPrefix(u.Elem()), keys: []*Term{v.C[0], tb.Add(v.C[1], tb.BV(64, uint64(i)))}}, u.Elem())
+			q.elems = append(q.elems, x.buildQ(st, ev, depth+1))
+		}
+	case *types.Basic:
+		if u.Info()&types.IsString != 0 {
+			bt := types.Typ[types.Uint8]
+			for i := 0; i < replayElems; i++ {
+				ev := x.loadRaw(st, &Addr{prefix: elemPrefix(bt), keys: []*Term{v.C[0], tb.Add(v.C[1], tb.BV(64, uint64(i)))}}, bt)
+				q.elems = append(q.elems, x.buildQ(st, ev, depth+1))
+			}
+		}
+	case *types.Pointer:
+		if v.A != nil {
+			q.unsup = "interior pointer"
+			return q
+		}
+		et := u.Elem()
+		if _, ok := et.Underlying().(*types.Array); ok {
+			q.unsup = "pointer to array"
+			return q
+		}
+		pv := x.loadRaw(st, x.addrOf(v, et), et)
+		q.ptee = x.buildQ(st, pv, depth+1)
+	case *types.Struct:
+		off := 0
+		for i := 0; i < u.NumFields(); i++ {
+			ft := u.Field(i).Type()
+			n := len(flatten(ft))
+			q.flds = append(q.flds, x.buildQ(st, &Val{T: ft, C: v.C[off : off+n]}, depth+1))
+			off += n
+		}
+	case *types.Interface, *types.Map, *types.Signature, *types.Chan:
+		q.unsup = "value of type " + v.T.String()
+	}
+	return q
+}
+
+// loadRaw loads without recording validity facts (model queries only).
+func (x *Exec) loadRaw(st *State, a *Addr, t types.Type) *Val {
+	cs := flatten(t)
+	v := &Val{T: t, C: make([]*Term, len(cs))}
+	for i, c := range cs {
+		m := x.heap(st, a.prefix+c.suffix, len(a.keys), c.hsort())
+		v.C[i] = m.Select(x, a.keys)
+	}
+	return v
+}
+
+func (q *qnode) terms(out []*Term) []*Term {
+	out = append(out, q.comps...)
+	for _, e := range q.elems {
+		out = e.terms(out)
+	}
+	if q.ptee != nil {
+		out = q.ptee.terms(out)
+	}
+	for _, f := range q.flds {
+		out = f.terms(out)
+	}
+	return out
+}
+
+func (q *qnode) fill(vals []uint64) []uint64 {
+	q.vals = vals[:len(q.comps)]
+	vals = vals[len(q.comps):]
+	for _, e := range q.elems {
+		vals = e.fill(vals)
+	}
+	if q.ptee != nil {
+		vals = q.ptee.fill(vals)
+	}
+	for _, f := range q.flds {
+		vals = f.fill(vals)
+	}
+	return vals
+}
+
+type goRender struct {
+	pkg     *types.Package
+	imports map[string]bool
+	notes   []string
+	arrays  map[uint64]string // backing arrays by model ref, for aliasing inputs
+	pre     []string
+	n       int
+}
+
+func (g *goRender) typeStr(t types.Type) string {
+	return types.TypeString(t, func(p *types.Package) string {
+		if p == g.pkg {
+			return ""
+		}
+		g.imports[p.Path()] = true
+		return p.Name()
+	})
+}
+
+func (g *goRender) render(q *qnode) (string, bool) {
+	if q.unsup != "" {
+		g.notes = append(g.notes, "cannot rebuild "+q.unsup)
+		return "", false
+	}
+	ts := g.typeStr(q.t)
+	switch u := q.t.Underlying().(type) {
+	case *types.Basic:
+		switch {
+		case u.Info()&types.IsBoolean != 0:
+			return fmt.Sprintf("%s(%v)", ts, q.vals[0] != 0), true
+		case u.Info()&types.IsString != 0:
+			n := q.vals[2]
+			if n > 1<<20 {
+				g.notes = append(g.notes, fmt.Sprintf("string length %d clamped to 1<<20", n))
+				n = 1 << 20
+			}
+			var bs []string
+			for i := uint64(0); i < n && i < uint64(len(q.elems)); i++ {
+				bs = append(bs, fmt.Sprintf("%d", q.elems[i].vals[0]))
+			}
+			if n > uint64(len(q.elems)) {
+				return fmt.Sprintf("%s(append([]byte{%s}, make([]byte, %d)...))", ts, strings.Join(bs, ","), n-uint64(len(q.elems))), true
+			}
+			return fmt.Sprintf("%s([]byte{%s})", ts, strings.Join(bs, ",")), true
+		case u.Info()&types.IsFloat != 0:
+			g.imports["math"] = true
+			if basicBits(u) == 32 {
+				return fmt.Sprintf("%s(math.Float32frombits(0x%x))", ts, q.vals[0]), true
+			}
+			return fmt.Sprintf("%s(math.Float64frombits(0x%x))", ts, q.vals[0]), true
+		case u.Info()&types.IsInteger != 0:
+			if isSigned(q.t) {
+				return fmt.Sprintf("%s(%d)", ts, sext64(q.vals[0], basicBits(u))), true
+			}
+			return fmt.Sprintf("%s(0x%x)", ts, q.vals[0]), true
+		}
+	case *types.Slice:
+		ref, off, n, c := q.vals[0], q.vals[1], q.vals[2], q.vals[3]
+		if ref == 0 {
+			return fmt.Sprintf("%s(nil)", ts), true
+		}
+		if n > 1<<20 {
+			g.notes = append(g.notes, fmt.Sprintf("slice length %d clamped to 1<<20", n))
+			n = 1 << 20
+		}
+		if c < n {
+			c = n
+		}
+		if c > n+4096 {
+			g.notes = append(g.notes, fmt.Sprintf("slice capacity %d clamped", c))
+			c = n + 4096
+		}
+		var es []string
+		for i := uint64(0); i < n && i < uint64(len(q.elems)); i++ {
+			s, ok := g.render(q.elems[i])
+			if !ok {
+				return "", false
+			}
+			es = append(es, s)
+		}
+		ets := g.typeStr(u.Elem())
+		_ = off
+		// aliasing inputs (same model ref) share one backing array when offsets are small
+		if name, ok := g.arrays[ref]; ok && off < 1<<16 {
+			g.notes = append(g.notes, "aliasing slices share a backing array")
+			return fmt.Sprintf("%s(%s[%d:%d:%d])", ts, name, off, off+n, off+c), true
+		}
+		g.n++
+		name := fmt.Sprintf("arr%d", g.n)
+		if off < 1<<16 {
+			g.pre = append(g.pre, fmt.Sprintf("%s := make([]%s, %d)", name, ets, off+c))
+			for i, e := range es {
+				g.pre = append(g.pre, fmt.Sprintf("%s[%d] = %s", name, off+uint64(i), e))
+			}
+			g.arrays[ref] = name
+			return fmt.Sprintf("%s(%s[%d:%d:%d])", ts, name, off, off+n, off+c), true
+		}
+		g.pre = append(g.pre, fmt.Sprintf("%s := make([]%s, %d, %d)", name, ets, n, c))
+		for i, e := range es {
+			g.pre = append(g.pre, fmt.Sprintf("%s[%d] = %s", name, i, e))
+		}
+		return fmt.Sprintf("%s(%s)", ts, name), true
+	case *types.Pointer:
+		if q.vals[0] == 0 {
+			return fmt.Sprintf("(%s)(nil)", ts), true
+		}
+		if q.ptee == nil {
+			g.notes = append(g.notes, "pointer too deep")
+			return "", false
+		}
+		s, ok := g.render(q.ptee)
+		if !ok {
+			return "", false
+		}
+		g.n++
+		name := fmt.Sprintf("obj%d", g.n)
+		g.pre = append(g.pre, fmt.Sprintf("%s := %s", name, s))
+		return "&" + name, true
+	case *types.Struct:
+		var fs []string
+		for i, f := range q.flds {
+			s, ok := g.render(f)
+			if !ok {
+				return "", false
+			}
+			fs = append(fs, fmt.Sprintf("%s: %s", u.Field(i).Name(), s))
+		}
+		return fmt.Sprintf("%s{%s}", ts, strings.Join(fs, ", ")), true
+	}
+	g.notes = append(g.notes, "cannot rebuild value of type "+q.t.String())
+	return "", false
+}
+
 // inputQueries lists the terms whose model values describe the unit's inputs.
 func (x *Exec) inputQueries(u *UnitResult) ([]string, []*Term) {
 	var names []string
@@ -13,3 +267,285 @@ func (x *Exec) inputQueries(u *UnitResult) ([]string, []*Term) {
 	}
 	return names, terms
 }
+
+type Replay struct {
+	Property   string   `json:"property"`
+	Obligation string   `json:"obligation"`
+	Unit       string   `json:"unit"`
+	Kind       string   `json:"kind"`
+	Pos        string   `json:"pos"`
+	Status     string   `json:"solver_status"`
+	Solver     string   `json:"solver"`
+	Output     string   `json:"solver_output,omitempty"`
+	PkgDir     string   `json:"pkg_dir"`
+	PkgName    string   `json:"pkg_name"`
+	TestSrc    string   `json:"test_src,omitempty"`
+	Overlay    []string `json:"overlay_files,omitempty"`
+	Inputs     []string `json:"inputs,omitempty"`
+	Notes      []string `json:"notes,omitempty"`
+	Verdict    string   `json:"verdict"`
+	RunOutput  string   `json:"run_output,omitempty"`
+	NoInput    bool     `json:"no_failing_input_found"`
+}
+
+// sizeBounds returns extra assertions that keep every input slice/string short.
+func (x *Exec) sizeBounds(u *UnitResult, bound uint64) []*Term {
+	tb := x.tb
+	var out []*Term
+	var walk func(q *qnode)
+	walk = func(q *qnode) {
+		switch q.t.Underlying().(type) {
+		case *types.Slice:
+			out = append(out, tb.Cmp("bvule", q.comps[2], tb.BV(64, bound)), tb.Cmp("bvule", q.comps[1], tb.BV(64, 64)), tb.Cmp("bvule", q.comps[3], tb.BV(64, bound+64)))
+		case *types.Basic:
+			if isString(q.t) {
+				out = append(out, tb.Cmp("bvule", q.comps[2], tb.BV(64, bound)))
+			}
+		}
+		if q.ptee != nil {
+			walk(q.ptee)
+		}
+		for _, f := range q.flds {
+			walk(f)
+		}
+	}
+	for _, q := range u.qroots {
+		walk(q)
+	}
+	return out
+}
+
+// buildReplay extracts a (small) model for a sat obligation and renders the replay test.
+func buildReplay(w *World, u *UnitResult, o *Oblig, so solveOpts) *Replay {
+	x := u.exec
+	r := &Replay{Obligation: o.Name, Unit: u.Name, Kind: o.Kind, Pos: o.Pos, Status: o.Status, Solver: o.Solver}
+	pkg := u.fn.Pkg
+	if pkg == nil && u.fn.Origin() != nil {
+		pkg = u.fn.Origin().Pkg
+	}
+	if pkg == nil {
+		r.Notes = append(r.Notes, "no package for unit")
+		r.NoInput = true
+		return r
+	}
+	r.PkgName = pkg.Pkg.Name()
+	r.PkgDir = w.pkgDir[pkg.Pkg.Path()]
+	if o.Status != "sat" {
+		r.Output = o.Output
+		r.NoInput = true
+		r.Verdict = "NO-MODEL (" + o.Status + ")"
+		return r
+	}
+	st := x.entryState()
+	u.qroots = nil
+	for _, in := range u.Inputs {
+		u.qroots = append(u.qroots, x.buildQ(st, in.Val, 0))
+	}
+	var terms []*Term
+	for _, q := range u.qroots {
+		terms = q.terms(terms)
+	}
+	var vals []uint64
+	got := false
+	for _, bound := range []uint64{12, 40, 4096, 0} {
+		var extra []*Term
+		if bound > 0 {
+			extra = x.sizeBounds(u, bound)
+		}
+		o2 := *o
+		o2.Extra = append(append([]*Term{}, o.Extra...), extra...)
+		f := filepath.Join(so.tmp, "model.smt2")
+		os.WriteFile(f, []byte(x.script(&o2, terms)), 0o644)
+		a := raceModel(f, so)
+		os.Remove(f)
+		if a.status != "sat" {
+			continue
+		}
+		txt := parseGetValue(a.out)
+		if len(txt) != len(terms) {
+			r.Notes = append(r.Notes, fmt.Sprintf("model has %d values for %d terms", len(txt), len(terms)))
+			continue
+		}
+		vals = make([]uint64, len(txt))
+		ok := true
+		for i, t := range txt {
+			v, pok := parseBV(t)
+			if !pok {
+				ok = false
+			}
+			vals[i] = v
+		}
+		if !ok {
+			continue
+		}
+		if bound == 0 {
+			r.Notes = append(r.Notes, "no model with short inputs exists; inputs may be clamped")
+		}
+		got = true
+		break
+	}
+	if !got {
+		r.NoInput = true
+		r.Verdict = "NO-MODEL"
+		return r
+	}
+	rest := vals
+	for _, q := range u.qroots {
+		rest = q.fill(rest)
+	}
+	g := &goRender{pkg: pkg.Pkg, imports: map[string]bool{"testing": true, "fmt": true}, arrays: map[uint64]string{}}
+	var args []string
+	for i, q := range u.qroots {
+		s, ok := g.render(q)
+		if !ok {
+			r.Notes = append(r.Notes, g.notes...)
+			r.NoInput = true
+			r.Verdict = "INPUT-NOT-REBUILDABLE"
+			return r
+		}
+		args = append(args, s)
+		r.Inputs = append(r.Inputs, fmt.Sprintf("%s = %s", u.Inputs[i].Name, s))
+	}
+	r.Notes = append(r.Notes, g.notes...)
+	r.TestSrc = renderTest(w, u, o, g, args)
+	return r
+}
+
+func raceModel(f string, so solveOpts) solverAnswer {
+	for _, sd := range []solverDef{solvers[0], solvers[2], solvers[1]} {
+		a := runSolver(contextBG(), sd, f, so.timeoutS)
+		if a.status == "sat" || a.status == "unsat" {
+			return a
+		}
+	}
+	return solverAnswer{status: "unknown"}
+}
+
+// renderTest writes the replay test source.
+func renderTest(w *World, u *UnitResult, o *Oblig, g *goRender, args []string) string {
+	var sb strings.Builder
+	fmt.Fprintf(&sb, "package %s\n\n", u.fn.Pkg.Pkg.Name())
+	var imps []string
+	for p := range g.imports {
+		imps = append(imps, p)
+	}
+	sort.Strings(imps)
+	sb.WriteString("import (\n")
+	for _, p := range imps {
+		fmt.Fprintf(&sb, "\t%q\n", p)
+	}
+	sb.WriteString(")\n\n")
+	fmt.Fprintf(&sb, "// Replay of obligation %s\n// (%s, %s)\n", o.Name, o.Kind, o.Pos)
+	sb.WriteString("func TestVerifReplay(t *testing.T) {\n")
+	for _, p := range g.pre {
+		fmt.Fprintf(&sb, "\t%s\n", p)
+	}
+	con := u.con
+	if con == nil {
+		// lemma harness: run it natively
+		fmt.Fprintf(&sb, `	defer func() {
+		r := recover()
+		if r == nil {
+			fmt.Println("REPLAY-NOT-REPRODUCED: harness ran to completion")
+			return
+		}
+		if _, skip := r.(gocvSkip); skip {
+			fmt.Println("REPLAY-NOT-REPRODUCED: model violates an assumption natively")
+			return
+		}
+		fmt.Printf("REPLAY-CONFIRMED: %%v\n", r)
+	}()
+	%s(%s)
+}
+`, u.fn.Name(), strings.Join(args, ", "))
+		return sb.String()
+	}
+	m := "gocv_" + con.Mangled
+	for i, a := range args {
+		fmt.Fprintf(&sb, "\ta%d := %s\n", i, a)
+	}
+	var an []string
+	for i := range args {
+		an = append(an, fmt.Sprintf("a%d", i))
+	}
+	al := strings.Join(an, ", ")
+	for k := range con.ReqText {
+		fmt.Fprintf(&sb, "\tif !%s_req%d(%s) {\n\t\tfmt.Println(\"REPLAY-NOT-REPRODUCED: model violates precondition %d natively\")\n\t\treturn\n\t}\n", m, k, al, k)
+	}
+	for k := range con.EnsText {
+		fmt.Fprintf(&sb, "\tpost%d := %s_ens%d(%s)\n\t_ = post%d\n", k, m, k, al, k)
+	}
+	var rn []string
+	for i := range con.ResultNames {
+		rn = append(rn, fmt.Sprintf("r%d", i))
+	}
+	call := ""
+	if con.Recv != "" {
+		call = fmt.Sprintf("a0.%s(%s)", u.fn.Name(), strings.Join(an[1:], ", "))
+	} else {
+		call = fmt.Sprintf("%s(%s)", u.fn.Name(), al)
+	}
+	sb.WriteString("\tfunc() {\n\t\tdefer func() {\n\t\t\tif r := recover(); r != nil {\n\t\t\t\tfmt.Printf(\"REPLAY-CONFIRMED: the call panics: %v\\n\", r)\n\t\t\t\tpanicked = true\n\t\t\t}\n\t\t}()\n")
+	if len(rn) > 0 {
+		fmt.Fprintf(&sb, "\t\t%s = %s\n", strings.Join(rn, ", "), call)
+	} else {
+		fmt.Fprintf(&sb, "\t\t%s\n", call)
+	}
+	sb.WriteString("\t}()\n\tif panicked {\n\t\treturn\n\t}\n")
+	for k := range con.EnsText {
+		fmt.Fprintf(&sb, "\tif !post%d(%s) {\n\t\tfmt.Println(\"REPLAY-CONFIRMED: postcondition %d is false: %s\")\n\t\treturn\n\t}\n", k, strings.Join(rn, ", "), k, strings.ReplaceAll(con.EnsText[k], "\"", "'"))
+	}
+	sb.WriteString("\tfmt.Println(\"REPLAY-NOT-REPRODUCED: the call returned and every postcondition holds\")\n}\n")
+	// declare results and panicked before the closure: patch in
+	decl := "\tpanicked := false\n"
+	if len(rn) > 0 {
+		sig := u.fn.Signature.Results()
+		for i := 0; i < sig.Len(); i++ {
+			decl += fmt.Sprintf("\tvar r%d %s\n", i, g.typeStr(sig.At(i).Type()))
+		}
+	}
+	s := sb.String()
+	marker := "\tfunc() {\n\t\tdefer func() {"
+	s = strings.Replace(s, marker, decl+marker, 1)
+	return s
+}
+
+// runReplay executes the replay test against the real code through an overlay.
+func runReplay(w *World, r *Replay, tmp string) {
+	if r.TestSrc == "" {
+		return
+	}
+	dir := r.PkgDir
+	ov := map[string]string{}
+	write := func(name string, data []byte) string {
+		p := filepath.Join(tmp, strings.ReplaceAll(name, "/", "_"))
+		os.WriteFile(p, data, 0o644)
+		return p
+	}
+	for path, data := range w.overlay {
+		if filepath.Dir(path) == dir {
+			ov[path] = write("ov_"+filepath.Base(path), data)
+		}
+	}
+	ov[filepath.Join(dir, "zz_gocv_replay_test.go")] = write("replay_test.go", []byte(r.TestSrc))
+	b, _ := json.Marshal(map[string]any{"Replace": ov})
+	ovf := filepath.Join(tmp, "overlay.json")
+	os.WriteFile(ovf, b, 0o644)
+	cmd := exec.Command("go", "test", "-overlay", ovf, "-vet=off", "-count=1", "-v", "-timeout", "60s", "-run", "^TestVerifReplay$", ".")
+	cmd.Dir = dir
+	cmd.Env = append(os.Environ(), "GOFLAGS=-mod=mod", "GOPROXY=off", "GOSUMDB=off", "GOTOOLCHAIN=local")
+	out, _ := cmd.CombinedOutput()
+	r.RunOutput = string(out)
+	switch {
+	case strings.Contains(r.RunOutput, "REPLAY-CONFIRMED"):
+		r.Verdict = "REPLAY-CONFIRMED"
+	case strings.Contains(r.RunOutput, "REPLAY-NOT-REPRODUCED"):
+		r.Verdict = "REPLAY-NOT-REPRODUCED"
+		r.NoInput = true
+	default:
+		r.Verdict = "REPLAY-ERROR"
+		r.NoInput = true
+	}
+}
+
+var _ = math.MaxInt
